@@ -123,6 +123,19 @@ func Family(level int) []*Topo {
 			return [][2]int{{a, bb}, {a, d}}
 		}},
 	}
+	// two ISDs whose ASes reuse the same AS numbers (identity is the ISD-AS pair, never the AS number alone)
+	bases = append(bases, base{"2isd-twin-as-numbers", func(b *builder) [][2]int {
+		c1 := b.as("1-ff00:0:110", true)
+		c2 := b.as("2-ff00:0:110", true)
+		a := b.as("1-ff00:0:111", false)
+		bb := b.as("2-ff00:0:111", false)
+		d := b.as("2-ff00:0:112", false)
+		b.link(c1, c2, CoreLink)
+		b.link(c1, a, ParentChild)
+		b.link(c2, bb, ParentChild)
+		b.link(bb, d, ParentChild)
+		return [][2]int{{a, bb}}
+	}})
 	if level > 0 {
 		bases = append(bases, base{"deep-chain", func(b *builder) [][2]int {
 			c := b.as("1-ff00:0:110", true)
